@@ -65,11 +65,16 @@ Qed.
 
 Lemma is_soon_equiv : forall t s w, gen_is_soon t s w = is_soon t s w.
 Proof.
-  intros t s w. unfold gen_is_soon, is_soon. change gen_utcnow with utcnow. unfold bindM, lift, dt_le.
-  destruct (utcnow false w) as [[now|e] w']; [|reflexivity].
-  destruct (dt_add_td now (td_of_seconds s)) as [soon|e]; [|reflexivity].
-  destruct (as_dt t) as [d|e]; [|reflexivity].
-  rewrite normalize_time_equiv. unfold lift. repeat mcase.
+  intros t s w. unfold gen_is_soon, is_soon, targ_to_dt.
+  change gen_parse_isotime with parse_isotime. change gen_utcnow with utcnow.
+  destruct t as [d|str_]; unfold bindM, lift, ret, dt_le.
+  - destruct (utcnow false w) as [[now|e] w']; [|reflexivity].
+    destruct (dt_add_td now (td_of_seconds s)) as [soon|e]; [|reflexivity].
+    rewrite normalize_time_equiv. unfold lift. repeat mcase.
+  - destruct (parse_isotime str_ w) as [[d|e] w0]; [|reflexivity].
+    destruct (utcnow false w0) as [[now|e] w']; [|reflexivity].
+    destruct (dt_add_td now (td_of_seconds s)) as [soon|e]; [|reflexivity].
+    rewrite normalize_time_equiv. unfold lift. repeat mcase.
 Qed.
 
 Lemma utcnow_ts_equiv : forall b w, gen_utcnow_ts b w = utcnow_ts b w.
@@ -166,20 +171,9 @@ Proof. intros. rewrite is_newer_than_equiv. eapply newer_iff; eassumption. Qed.
 
 Theorem gen_soon_iff w now t d s :
   ov w = One now -> tz now = None -> resolves w t d -> normalizable d = true ->
-  t = TDt d -> in_range (wall now + s) = true ->
+  in_range (wall now + s) = true ->
   exists b, gen_is_soon t s w = (Ok b, w) /\ (b = true <-> instant d <= wall now + s).
 Proof. intros. rewrite is_soon_equiv. eapply soon_iff; eassumption. Qed.
-
-Definition gen_soon_full_statement : Prop :=
-  forall w now t d s, ov w = One now -> tz now = None -> resolves w t d -> normalizable d = true ->
-    in_range (wall now + s) = true ->
-    exists b, gen_is_soon t s w = (Ok b, w) /\ (b = true <-> instant d <= wall now + s).
-
-Theorem gen_soon_str_refuted : ~ gen_soon_full_statement.
-Proof.
-  intros H. apply soon_str_refuted. intros w now t d s H1 H2 H3 H4 H5.
-  destruct (H w now t d s H1 H2 H3 H4 H5) as (b & E & I). exists b. rewrite <- is_soon_equiv. auto.
-Qed.
 
 Lemma marshall_unmarshall_equiv o w : bindM (gen_marshall_now o) gen_unmarshall_time w = bindM (marshall_now o) unmarshall_time w.
 Proof.
